@@ -103,9 +103,9 @@ CHECKS = {
             SIM + " (single-object history): insert/replace/remove/get/clear histories with key universes of twice the capacity on every fixed-capacity map type used by the programs, against BTreeMap; capacity exhaustion as the fault; panics caught and attributed",
             "18 map variants (8 real public types of store and treasury, 6 SDK mirrors, 4 own instantiations of the same macro) are filled beyond capacity, hammered while full, drained and cleared; results, contents (raw bytemuck image), sortedness and zeroed tail equal the reference; a new key into a full map must fail and change nothing; any panic is a violation. Known finding: the plain `insert` panics on a full map.",
             "no clock or party; capacity exhaustion is the only fault", "§5 C34"),
-    "C27": ("exploration", "unitsim",
+    "C27": ("exploration", "unitsim+chainsim/scn-oracle",
             SIM + ": a stored feed price lives through a simulated timeline (reports with status / last-update tracking, policy-flag and timeout changes, clock stalls and jumps to the 64-bit extremes); is_market_open is compared with the statement's predicate evaluated in i128 at every step",
-            "Unit part: timelines of 20-12000 steps incl. jumps to i64::MIN / i64::MAX and the freshness edges; openness and is_market_open must equal the reference predicate (status not closed under the feed's policy flags, open flag set, and with last-update tracking both the report and the last update no older than the timeout). The on-chain path (reports through the store's feeds and oracle) is the scn-oracle part.",
+            "Unit part: timelines of 20-12000 steps incl. jumps to i64::MIN / i64::MAX and the freshness edges; openness and is_market_open must equal the reference predicate (status not closed under the feed's policy flags, open flag set, and with last-update tracking both the report and the last update no older than the timeout). Chain part (scn-oracle): v8/v11 reports with every status and last-update values, per-feed policy flags toggled by the keeper, clock moved around the timeout between update and use; the openness observed on chain (MarketNotOpen or the market's closed flag) must equal the same predicate.",
             "the extreme-timestamp clause is unreachable through u32 report timestamps on chain, hence the unit-level timeline", "§5 C27"),
     "C30": ("exploration", "chainsim/scn-user",
             SIM + ": GT mint / burn / exchange-vault histories over 2-6 users with window-boundary clock moves, duplicate and early confirmations, cluster restarts and byzantine signers; balance/supply/cost/rank model and fork probe for split-independence of the minting cost; second scenario mints through real order executions",
@@ -119,6 +119,26 @@ CHECKS = {
             SIM + ": referral histories among 2-6 users (code creation, referrer setting, code transfer / cancel / accept) with delayed, duplicated and lost transactions, stale account choices and byzantine signers; relation model",
             "Referrers are write-once, never self, never mutual (both orders of A->B / B->A are scheduled); each code has exactly one owner and ownership changes only on accept by the proposed owner; every transaction's outcome equals the model's allow/deny predicate.",
             "only user<->user and code<->code account substitutions are generated", "§5 C33"),
+    "C24": ("exploration", "chainsim/scn-oracle",
+            SIM + ": price keeper posts stale / future / deviating / substituted-feed reports while keepers change age, range, future-excess, timestamp-adjustment and deviation settings; acceptance by set_prices_from_price_feed and by executing instructions implies the reference predicate; oracle cleared after every use",
+            "One-directional oracle (accepted => fresh, in band, expected provider and feed, enabled token, timestamp spread within range), so a legitimately rejected price is never an alarm; stored prices are well formed; after every executing instruction (success, soft failure, rollback) the oracle account is cleared.",
+            "clearing is observed after deposits, increase orders and fee/ADL state updates only; Pyth and Switchboard are not simulated", "§5 C24"),
+    "C25": ("exploration", "chainsim/scn-oracle",
+            SIM + ": histories of custom-feed updates (strict and idempotent) with out-of-order, duplicated, delayed, lost, future-dated, inverted and corrupted reports under stalled and jumping clocks and byzantine signers",
+            "After every delivered transaction: feed timestamps never decrease, min <= price <= max, a failed update leaves every feed byte-identical, a successful one changes only its target, and an older report in idempotent mode succeeds without updating (return data false) while strict mode rejects it.",
+            "mock Chainlink verifier; reports from the simulator's own ABI encoder", "§5 C25"),
+    "C26": ("exploration", "chainsim/scn-oracle",
+            SIM + ": tokens with swarm-drawn decimals (0-30) and precision (0-26) receive exactly known 18-decimal report prices; the Decimal stored by the oracle is compared with a BigInt truncation; the same triples also drive the conversion functions directly",
+            "stored value x 10^m <= exact price, error below one precision step, equals the BigInt floor; unrepresentable prices and unsupported decimal settings fail instead of storing a wrong price (probes show that no representable price is rejected).",
+            "prices expressible in a Chainlink report on chain; the full u128 range and provider decimals up to 40 only through the direct calls (same oracle)", "§5 C26"),
+    "C28": ("fault_enumeration", "chainsim/scn-oracle",
+            SIM + ": valid v2/v3/v7/v8/v11 reports are damaged in transit (every single-bit flip of the header words, truncation at every word boundary, rewritten offset/length words, damaged snappy frames, splices, wrong feed/schema ids) and fed to the decoders directly and through the on-chain instruction; panics attributed by location",
+            "No panic located in crates/chainlink-datastreams, crates/utils or the store; success implies the blob is exactly the slice described by the 256-bit ABI words; conversion rejects negatives and mis-ordering, preserves bid <= price <= ask and scales all three by the same power of ten. Found and fixed: high bits of the ABI words were ignored.",
+            "exhaustive over the single-bit flips of the five header words and the word-boundary truncations of each sampled report; snappy length prefixes above 2^24 are not injected", "§5 C28"),
+    "C29": ("exploration", "chainsim/scn-oracle",
+            SIM + ": tokens with price adjustment enabled receive reports inside, on and outside the deviation band (factors from 1e-8 to 250 %); accepted adjusted prices are checked against the exact band",
+            "Every accepted adjusted price has |min-ref| <= dev, |max-ref| <= dev and min <= max; the clamp moves bounds inwards only; otherwise the transaction failed.",
+            "only the explicit-reference path (custom feeds) is reachable; the implicit mid-price reference belongs to Pyth / Switchboard feeds", "§5 C29"),
     "C09": ("exploration", "chainsim/scn-exchange",
             SIM + ": liquidation attempts by the keeper on live positions after price moves; a successful liquidation must close the whole position",
             "Chain part: after every executed increase or non-removing decrease the position must not be liquidatable at the execution prices, every successful liquidation must have been liquidatable under the liquidation thresholds on the pre-state and must remove the whole position, and every successful auto-deleverage must have had a pnl-to-pool factor above the ADL limit, strictly lower it and leave it at or above the configured minimum (pnl factors from the SDK MarketModel of the pre/post account bytes). The reference evaluates check_liquidatable on the SDK's PositionModel of the same account bytes after bringing the fee state up to date with the program's update_fees_state on a fork.",
